@@ -139,8 +139,10 @@ def fser (Mp : MapEnv) (NF JK : List String) : FieldDecl → PyVal → R PyVal
   | .mapAny _, v => (match v with | .dict kvs => .ok (.dict kvs) | _ => .error .typeErr)  -- `deepcopy(dict(value))`
   | .struct c fields defaults, v =>
     if c.inline then
-      -- StructureReference.serialize: every field, unset ones included (None)
-      bindE (fInline Mp NF JK defaults (attrsOf v) fields) fun r => .ok (.dict r)
+      -- StructureReference.serialize: every field, unset ones included (None): `getattr(value, name, None)`
+      -- reads the field's default from a Structure instance, and None from anything else (a trusted
+      -- instance holds the raw dict it was given)
+      bindE (fInline Mp NF JK (match v with | .inst _ _ => defaults | _ => []) (attrsOf v) fields) fun r => .ok (.dict r)
     else if NF.contains c.name then .error .typeErr        -- `getattr(cls, "serialize", None)(value)`
     else (match v with
       | .inst _ attrs =>
